@@ -230,7 +230,7 @@ class FoldMixin:
         FA = self.fresh("fold@arr", z3.ArraySort(IS, esort))
         H0 = self.fresh("fold@old", z3.ArraySort(IS, esort))
         inplace = z3.And(res.rid == a0.rid, res.off == a0.off)
-        fresh_r = z3.And(z3.UGT(res.rid, rid(FRESH_BASE + self.nfresh)), res.off == idx(0))
+        fresh_r = z3.And(z3.UGE(res.rid, rid(ABSTRACT_BASE)), res.off == idx(0))
         p = z3.BitVec("p", IDX_BITS)
         kq = z3.BitVec("k", IDX_BITS)
         jq = z3.BitVec("j", IDX_BITS)
